@@ -9,14 +9,33 @@ LEVEL = "proof"
 TITLE = "Stores are safe under concurrent use: linearizable, no crash/deadlock/lost mail"
 LEVEL_TEXT = ("partial: Coq theorems over a small-step interleaving model of both stores' locking / rendezvous protocol "
               "(no crash incl. the size enforcer, deadlock freedom, linearizability of the memory store — with and without size "
-              "limit, evictions as enforcer commits — and of the file store by forward simulation, distinct ids, every "
+              "limit, evictions as enforcer commits — and of the file store by forward simulation, distinct ids, any schedule of the "
+              "memory-store model makes at most (n+1)*15n+2n productive steps [mem_step_bound: no livelock], every "
               "non-walk operation commits exactly once, delivered-stays-unless-removed [memory store WITHOUT cap and size limit "
-              "only; for every cap and limit: present-stays-unless-removed-or-evicted; no file-store counterpart]) + forced-schedule "
+              "only; for every cap and limit: present-stays-unless-removed-or-evicted; file store, which the model has without cap: "
+              "file_delivered_stays_unless_removed]; lock discipline at SOURCE level on synchronisation skeletons regenerated from "
+              "both stores' code on every run — no lock acquired while one is held, no rendezvous / foreign callback under a lock, "
+              "every path releases — and the memory store's skeleton pinned to the model's program counters) + forced-schedule "
               "correspondence on the real stores; data-race freedom in the Go memory-model sense and runtime deadlocks are "
               "sampled by a -race stress run (thorough tier), not proved; the runner's oracle judges every finished "
               "execution: without size limit by the sequential specification seq_exec, with the size limit by the "
               "sub-action specification qstep (Model/ConcEnfSpec.v)")
-LEVEL_NOTE = ("SCAN STREAM: the retention scanner is a client of the store, not part of the store models; cases of kind 'scan' are "
+LEVEL_NOTE = ("LOCK SKELETONS (translator go/cmd/pins/c09_locks.go -> Gen/StoreLocks.v, type Model/ConcSk.v): per function of "
+              "pkg/storage/mem/{store,maxsize}.go and pkg/storage/file/{fstore,mbox,fmessage}.go the lock/unlock calls (receiver "
+              "expression = lock name; all mailbox/bucket locks are ONE name, conservative), channel operations, calls inside the "
+              "table, calls of function-typed parameters, the memory store's instrumentation points, and the if/switch/select/"
+              "loop/defer/return structure around them; everything else is pruned. lock_acquisitions_not_nested evaluates the "
+              "discipline on those tables (an abstract run over the set of held locks, Model/ConcSk.v:disciplined — the checker IS "
+              "the definition; sanity examples show it rejects seed C09-q1's nesting, a rendezvous under a lock, a store method "
+              "called under the bucket lock and a missing unlock); it holds for whatever shape the source has and fails only when "
+              "the discipline is broken or the source uses a construct the translator does not read (goto, labelled break, defer "
+              "in a branch, go func literal with synchronisation). One named exception: the file store receives the serial number "
+              "of a new id from its counter channel under the bucket lock (mbox.newMessage -> generateID); the theorem also pins "
+              "that the channel's sender is a goroutine that only sends. mem_lock_skeleton_pinned is deliberately strict: ANY "
+              "change of the memory store's skeleton (a moved hook, a new call between lock sites) fails it — the model then no "
+              "longer transcribes the source and has to be revisited. Not covered by the skeletons: which lock OBJECT an "
+              "expression denotes (two different mailboxes' locks are one name), lock use in other packages' callbacks. "
+              "SCAN STREAM: the retention scanner is a client of the store, not part of the store models; cases of kind 'scan' are "
               "judged by the clause directly (scan = a walk + removals of the expired messages it saw: at the end every fresh "
               "message, of the prefix or delivered meanwhile, is listed and every expired one is gone; verdicts "
               "fail:retention-scan-removed-unexpired-message / -kept-expired-message). "
@@ -86,7 +105,7 @@ NOT_PROVED = [
     "conc_sequential_is_memstore_limit_stmt (Proofs/ConcC07Seq.v): non-overlapping runs WITH the size limit answer as C07's run_mem for ALL histories — proved for histories of deliveries, reads and mark-seen without cap (conc_sequential_is_memstore_limit_partial: the eviction loop against MemStore.evict_loop); missing: the removal notices (RemoveMessage, PurgeMessages, cap evictions with the limit), where the model looks a message up in the enforcer's book by its tag (object identity) and C07's model by (mailbox, id) — needs distinct tags and 'every live message is registered' as invariants; checked meanwhile by forced-schedule correspondence and the qstep oracle",
     "mem_quiescent_accounting_stmt (Proofs/ConcStmts.v; audit item 4): at all_done, for every cap, limit and schedule, the enforcer's book is exactly the live messages, curSize their total, total <= max — NOT proved (one-sided invJ and the sequential case only); needs two-sided accounting + a linear-ownership invariant for tags; the runner evaluates it on the model's final state of every forced schedule with a size limit (fail:model-quiescence-statement-refuted)",
     "concmem_refines_qstep_stmt (Proofs/ConcStmts.v): ConcMem refines the sub-action specification qstep used by the size-limit oracle — NOT proved; mem_linearizable_with_enforcer says only that evictions are removals committed by the enforcer, it does not constrain WHICH messages are evicted or when",
-    "mem_terminates_stmt / file_terminates_stmt (Proofs/ConcStmts.v; audit item 5, 'every operation completes'): the number of productive steps of any schedule of the models is bounded — NOT proved; deadlock freedom only says that some party can always move; on the real stores completion is observed under deadlines (forced schedules, fault and scan families)",
+    "file_terminates_stmt (Proofs/ConcStmts.v; audit item 5, 'every operation completes', file-store half): the number of productive steps of any schedule of the file-store model is bounded — NOT proved (the memory-store half is: mem_step_bound). Sketch: the walk's remaining work is a polynomial in the numbers of directories, which only deliveries still before their mkdir can increase; on the real store completion is observed under deadlines (forced schedules, fault and scan families)",
 ]
 EXEC_TIMEOUT = {"quick": 600, "thorough": 7200}
 
